@@ -342,7 +342,118 @@ def w_bfs(item, rep):
     rep.part(name, states=rep.states - s0, depth_completed=done)
 
 
+# ---------------------------------------------------------------- directed enumerations
+def _toggle_via_node(q, frag_now):
+    w, node, radio = node_template()
+    w.activate()
+    if node.fragmentation is not frag_now:
+        node.fragmentation = frag_now
+    node.queue = q
+    node.fragmentation = not frag_now
+    return node.queue
+
+
+def w_toggle_enum(item, rep):
+    """every capacity 0..12 x every fill 0..capacity x both directions: a fragmentation toggle must
+    move ALL queued frames in order and keep max_queue_size (capacities above the default 6 included)"""
+    seed, pid = item
+    for frag in (True, False):
+        for mx in range(0, 13):
+            for fill in range(0, mx + 1):
+                H.reset_frame_ids()
+                q = H.m_structs.FrameQueueFrag() if frag else H.m_structs.FrameQueue()
+                q.max_queue_size = mx
+                want = []
+                for i in range(fill):
+                    rec = Rec(0o1 + (i % 5), 0o5, (0x0B00 + i + seed) & 0xFFFF, 70 + (i % 3), i, H.pattern(i % 25, seed, 90 + i))
+                    if q.enqueue(build(rec, mutable=bool(i % 2))) is not True:
+                        raise HarnessError("could not fill the queue")
+                    want.append(rec)
+                q2 = _toggle_via_node(q, frag)
+                got = contents(q2)
+                rep.case()
+                rep.transitions += 1
+                rep.traces += 1
+                rep.outcome("toggle-enum:%s:%s" % ("on" if not frag else "off", "over-default" if fill > 6 else ("frames" if fill else "empty")))
+                rep.nt("toggle-enum:%s:%d:%d" % (frag, mx, fill))
+                rd = {"part": "toggle-enum", "frag": frag, "max": mx, "fill": fill, "seed": seed}
+                d = diff_class(got, want)
+                if d is not None:
+                    rep.violation("%s/toggle:toggle:%s" % (pid, d if fill <= 6 else d + ":more-than-6-frames"),
+                                  "after the toggle the queue holds %d frame(s), %d were queued (max_queue_size %d)" % (len(got), fill, mx), rd)
+                if q2.max_queue_size != mx:
+                    rep.violation("%s/toggle:max_queue_size" % pid, "max_queue_size %r after the toggle, was %d" % (q2.max_queue_size, mx), rd)
+
+
+def _frag_pair(rec):
+    """FIRST + LAST fragment frames of a 2-fragment message whose reassembled form is `rec`"""
+    a, b = rec.message[:24], rec.message[24:]
+    first = Rec(rec.from_node, rec.to_node, rec.frame_id, 148, 2, a)
+    last = Rec(rec.from_node, rec.to_node, rec.frame_id, 150, rec.message_type, b)
+    return first, last
+
+
+def w_frag_enum(item, rep):
+    """re-assembled messages go through the same capacity and duplicate tests as plain frames:
+    every sequence (depth <= 5) over {plain frame j, fragmented message j (FIRST+LAST) with the SAME
+    (origin, id, type) as plain frame j, a fragmented message with its own key, dequeue} x capacity"""
+    import itertools
+    seed, pid, depth = item
+    plain = [Rec(0o2, 0o1, (0x0C00 + seed) & 0xFFFF, 65, 0, H.pattern(5, seed, 120)),
+             Rec(0o3, 0o1, (0x0C01 + seed) & 0xFFFF, 66, 0, H.pattern(9, seed, 121))]
+    fragd = [Rec(plain[0].from_node, 0o1, plain[0].frame_id, 65, 65, H.pattern(30, seed, 122)),
+             Rec(plain[1].from_node, 0o1, plain[1].frame_id, 66, 66, H.pattern(41, seed, 123)),
+             Rec(0o4, 0o1, (0x0C02 + seed) & 0xFFFF, 67, 67, H.pattern(48, seed, 124))]
+    ops = [("plain", 0), ("plain", 1), ("frag", 0), ("frag", 1), ("frag", 2), ("deq",)]
+    for mx in (1, 2, 6):
+        for n in range(1, depth + 1):
+            for seq in itertools.product(ops, repeat=n):
+                H.reset_frame_ids()
+                q = H.m_structs.FrameQueueFrag()
+                q.max_queue_size = mx
+                m = RefQueue(mx)
+                bad = None
+                for op in seq:
+                    if op[0] == "plain":
+                        q.enqueue(build(plain[op[1]], mutable=False))
+                        m.enqueue(plain[op[1]])
+                    elif op[0] == "frag":
+                        f, l = _frag_pair(fragd[op[1]])
+                        q.enqueue(build(f, mutable=False))
+                        q.enqueue(build(l, mutable=True))
+                        # what the application may see is the reassembled message (reserved byte is the network's)
+                        m.enqueue(fragd[op[1]])
+                    else:
+                        q.dequeue()
+                        m.dequeue()
+                    got = [(x.from_node, x.to_node, x.frame_id, x.message_type, x.message) for x in contents(q)]
+                    want = [(x.from_node, x.to_node, x.frame_id, x.message_type, x.message) for x in m.items]
+                    keys = [(g[0], g[2], g[3]) for g in got]
+                    if len(set(keys)) != len(keys):
+                        bad = ("duplicate-held:reassembled", "two queued frames share (origin, id, type): %r" % (keys,))
+                    elif len(got) > mx:
+                        bad = ("bound:reassembled:len>max", "%d frames queued with max_queue_size %d" % (len(got), mx))
+                    elif got != want:
+                        bad = ("enqueue-stored:reassembled:%s" % ("count" if len(got) != len(want) else "content"),
+                               "queue holds %d frame(s), reference %d" % (len(got), len(want)))
+                    if bad:
+                        break
+                rep.case()
+                rep.transitions += len(seq)
+                rep.traces += 1
+                rep.outcome("frag-enum:len%d:%s" % (len(m), "violation" if bad else "ok"))
+                rep.nt("frag-enum:%d:%r" % (mx, seq))
+                if bad:
+                    rep.violation("%s/%s" % (pid, bad[0]), "%s [max %d: %s]" % (bad[1], mx, ", ".join(op_str(o) for o in seq)),
+                                  {"part": "frag-enum", "max": mx, "ops": [list(o) for o in seq], "seed": seed})
+
+
 def run(tier, seed, rep, only=None):
+    if not only or "enum" in only:
+        pmap(w_toggle_enum, [(seed, PID)], rep)
+        pmap(w_frag_enum, [(seed, PID, 5 if tier == "quick" else 6)], rep)
+        if only and "enum" in only:
+            return dict(level="model_checking", exhaustive=True, rule="", bounds={}, trusted_base=[], assumptions=[], min_outcomes=2)
     dq, dn = (7, 4) if tier == "quick" else (9, 5)
     items = [("queue", True, seed, dq, PID), ("queue", False, seed, dq, PID),
              ("node", True, seed, dn, PID), ("node", False, seed, dn, PID)]
@@ -352,7 +463,9 @@ def run(tier, seed, rep, only=None):
     return dict(
         level="model_checking",
         exhaustive=True,
-        rule="E-BFS with dedup on (real queue contents, caller-held frame objects, reference model) over every sequence of "
+        rule="Directed enumerations: fragmentation toggle for every capacity 0..12 x fill 0..capacity x direction; every sequence (depth 5/6) of plain / "
+             "fragmented (FIRST+LAST, same or own key) frames and dequeues x capacity on FrameQueueFrag. "
+             "E-BFS with dedup on (real queue contents, caller-held frame objects, reference model) over every sequence of "
              "the alphabet up to the depth, from an empty FrameQueueFrag and an empty FrameQueue; after every operation the "
              "return value and the complete contents (drained from a deep copy through dequeue()) are compared with "
              "vf.ref.queue. Successors of a violating transition are not explored (the model no longer describes the queue). "
@@ -363,7 +476,7 @@ def run(tier, seed, rep, only=None):
                               "(all header fields; bytearray message in place / bytes message rebound)", "reuse(i<2) enqueue the caller's "
                               "object again as it is now", "deq", "peek", "len", "setmax(0|1|2|6)", "toggle fragmentation"]),
         trusted_base=["vf/ref/queue.py"],
-        assumptions=["frame types outside the fragment types 148..150 (fragment reassembly is C06)",
+        assumptions=["BFS part: frame types outside the fragment types 148..150; the frag-enum part feeds complete in-order FIRST+LAST pairs (loss / reordering of fragments is C06)",
                      "header fields within their wire widths (12-bit addresses, 16-bit id, 8-bit type/reserved)",
                      "'never more than max_queue_size' is required at every accepting enqueue; frames already queued when the "
                      "maximum is lowered stay queued", "CPython 3.12 only"],
@@ -374,6 +487,14 @@ def run(tier, seed, rep, only=None):
 def replay(data):
     r = data["replay"]
     pid = data.get("property", PID)
+    if r["part"] in ("toggle-enum", "frag-enum"):
+        rep = __import__("vf.engine", fromlist=["Report"]).Report()
+        if r["part"] == "toggle-enum":
+            w_toggle_enum((r["seed"], pid), rep)
+        else:
+            w_frag_enum((r["seed"], pid, len(r["ops"])), rep)
+        want = data.get("signature")
+        return [(s_, v_["what"]) for s_, v_ in rep.violations.items() if want is None or s_ == want]
     st = mk_state(r["part"], r["frag"])
     want = data.get("signature")
     found = []
